@@ -116,7 +116,7 @@ type hooks struct {
 	onExec     []func(nd *Node, ev any)
 	onViewChg  []func(nd *Node, ev hotstuff.ViewChangeEvent)
 	onLeader   []func(nd *Node, v hotstuff.View, id hotstuff.ID)
-	onRule     []func(nd *Node, kind string, view hotstuff.View, p *hotstuff.ProposeMsg, b *hotstuff.Block, vote bool, commit *hotstuff.Block)
+	onRule     []func(nd *Node, kind string, view hotstuff.View, p *hotstuff.ProposeMsg, b *hotstuff.Block) func(vote bool, commit *hotstuff.Block)
 	onFetch    []func(nd *Node, h hotstuff.Hash, b *hotstuff.Block, ok bool)
 	onContribution []func(nd *Node, view hotstuff.View, sig hotstuff.QuorumSignature)
 	atEnd      []func()
